@@ -364,6 +364,12 @@ def detector_specs(n, p, tier):
                         out.append(dict(detector="MVCAPA", kwargs=dict(collective_saving=sav, point_saving="L2Saving", collective_penalty=pen,
                                                                        min_segment_length=m, max_segment_length=min(n, 10),
                                                                        collective_penalty_scale=cps, point_penalty_scale=pps), sym=["perm"]))
+        # point anomalies under non-constant per-component penalties (the affected-column inference uses the point betas)
+        for ppen in ("combined", "intermediate"):
+            for pps in (0.25, 0.5, 1.0):
+                out.append(dict(detector="MVCAPA", kwargs=dict(collective_saving="L2Saving", point_saving="L2Saving", collective_penalty="combined",
+                                                               point_penalty=ppen, min_segment_length=2, max_segment_length=min(n, 10),
+                                                               collective_penalty_scale=2.0, point_penalty_scale=pps), sym=["perm"]))
     return out
 
 
